@@ -123,11 +123,15 @@ func (pkh *eonPubKeyHandler) queryAndHandleNewEonPubKeys(ctx context.Context) er
 		}
 		if pkh.broadcastEonPubKey {
 			err := pkh.broadcastEonPublicKey(ctx, eonPubKey)
-			return errors.Wrap(err, "failed to broadcast eon public key")
+			if err != nil {
+				return errors.Wrap(err, "failed to broadcast eon public key")
+			}
 		}
 		if pkh.eonPubkeyHandler != nil {
 			err := pkh.eonPubkeyHandler(ctx, eonPubKey)
-			return errors.Wrap(err, "failed to handle eon public key")
+			if err != nil {
+				return errors.Wrap(err, "failed to handle eon public key")
+			}
 		}
 	}
 	return nil
